@@ -1156,7 +1156,8 @@ func (ex *Exec) afterLoad(fr *Frame, st *State, v Val) {
 			implies(eq(v.L[0], "0"), eq(v.L[3], bvLit(0, 64)))))
 	}
 	if len(ls) == 1 && ls[0].Sort == sStr {
-		ex.assume(st.pc, nonNeg(app("strlen", v.L[0])))
+		// like slices, strings are shorter than 2^44 bytes
+		ex.assume(st.pc, and(nonNeg(app("strlen", v.L[0])), app("bvult", app("strlen", v.L[0]), "#x0000100000000000")))
 	}
 	// objects reachable through the heap satisfy their type invariant at visible states
 	// (objects this function is in the middle of changing are re-checked at its exits)
@@ -1561,7 +1562,7 @@ func (ex *Exec) convert(fr *Frame, st *State, in *ssa.Convert) {
 		ln := app("strlen", xv.L[0])
 		k := "M|" + sortKey(sBV(8))
 		srt := sArr(sInt, sArr(bv64, sBV(8)))
-		content := app(ex.declFun("str_bytes", []string{sStr}, sArr(bv64, sBV(8))), xv.L[0])
+		content := app("str_bytes", xv.L[0])
 		ex.heapSet(st, k, srt, store(ex.heapGet(st, k, srt), base, content))
 		fr.vals[in] = Val{T: to, L: []string{base, bvLit(0, 64), ln, ln}}
 		return
